@@ -1,6 +1,6 @@
 """Property -> clauses -> rule instances.  Each check_Cxx fills a Report; it never prints."""
 from .model import AnalysisError
-from .rules import twin, effect, work, feedback, models, misc, state, fresh
+from .rules import twin, effect, work, feedback, models, misc, state, fresh, pda_rules
 
 ALG = ['dfa_algorithms', 'nfa_algorithms', 'pda_algorithms', 'tm_algorithms', 'cfg_algorithms', 'regexp_algorithms']
 
@@ -118,6 +118,7 @@ def check_C06(ctx, rep):
 def check_C08(ctx, rep):
     rep.clauses_decided += ['pure twins deep-copy, call the in-place phase and return the copy (R-TWIN)', 'input grammar untouched (R-EFFECT)',
                             'nullable and unit-closure sets are saturated (R-WORK W5)',
+                            'the five phases run in the same order in the pipeline, the phase selector and the postcondition table (R-PHASE)',
                             'every introduced variable comes from the provider, is added to V before the next request, and the provider returns only names outside V on every path (R-FRESH)']
     rep.not_decided += ['language preservation and postcondition establishment of each phase']
     _twins(ctx, rep, ['cfg_to_chomsky', 'cfg_remove_epsilon_rules', 'cfg_eliminate_unit_rules', 'cfg_add_new_start_variable',
@@ -130,6 +131,8 @@ def check_C08(ctx, rep):
                              'cfg_algorithms.cfg_eliminate_terminals_in_place'], providers=['cfg_algorithms.cfg_fresh_variable'])
     if n < 3:
         raise AnalysisError('fewer than 3 variable-introduction sites found for C08')
+    P = ctx.prog.func
+    pda_rules.check_phase_order(ctx, rep, P('cfg_algorithms.cfg_to_chomsky_in_place'), P('notebook_chomsky.cfg_apply_chomsky'), P('notebook_chomsky.cfg_check_chomsky'))
     _effect_on(ctx, rep, ['cfg_algorithms.cfg_to_chomsky', 'cfg_algorithms.cfg_remove_epsilon_rules', 'cfg_algorithms.cfg_eliminate_unit_rules',
                           'cfg_algorithms.cfg_add_new_start_variable', 'cfg_algorithms.cfg_make_rules_of_length_two',
                           'cfg_algorithms.cfg_eliminate_terminals', 'cfg_algorithms.cfg_nullable_variables', 'cfg_algorithms.cfg_derivable_variables',
@@ -137,24 +140,36 @@ def check_C08(ctx, rep):
 
 
 def check_C09(ctx, rep):
-    rep.clauses_decided += ['closure worklist records and enqueues each configuration once, limit read at call time, at least `limit` pops allowed (R-WORK W1/W2/W4)']
+    rep.clauses_decided += ['closure worklist records and enqueues each configuration once, limit read at call time, at least `limit` pops allowed (R-WORK W1/W2/W4)',
+                            'every pda_pop_push is dominated by pda_can_pop_push on the same arguments (guard pairing)']
     rep.not_decided += ['soundness and completeness of the configuration search as a whole']
     _worklists_in(ctx, rep, ['pda_algorithms.pda_epsilon_closure'])
     if state.check_config_reads(ctx, rep) < 1:
         raise AnalysisError('no read of a GambaTools setting found')
+    if pda_rules.check_pop_push_guard(ctx, rep, ctx.prog.funcs_of('pda_algorithms')) < 4:
+        raise AnalysisError('fewer than 4 pda_pop_push call sites found')
     _effect_on(ctx, rep, ['pda_algorithms.pda_epsilon_closure', 'pda_algorithms.pda_do_transition', 'pda_algorithms.pda_accepts_word',
                           'pda_algorithms.pda_pop_push', 'pda_algorithms.pda_can_pop_push'], shared=False)
 
 
 def check_C10(ctx, rep):
     rep.clauses_decided += ['pure twins deep-copy and call the in-place normal form (R-TWIN)', 'input PDA not modified (R-EFFECT)',
-                            'states, bottom marker and dummy symbol are fresh (R-FRESH)']
+                            'states, bottom marker and dummy symbol are fresh (R-FRESH)',
+                            'push/pop case split: for all (u,v) over {eps,x,y}^2 one branch is taken and the inserted chain pops u / pushes v with push-or-pop moves only (M5)',
+                            'the three normal forms are established before the triple construction; the empty-stack form drains the stack with pop moves (R-PDAFORM)']
     rep.not_decided += ['language equality of the normal forms and of the grammar']
     _twins(ctx, rep, ['pda_to_accept_on_empty_stack', 'pda_to_push_pop'])
     n = _fresh_in(ctx, rep, ['pda_algorithms.pda_to_one_accepting_state_in_place', 'pda_algorithms.pda_to_accept_on_empty_stack_in_place',
                              'pda_algorithms.pda_to_push_pop_in_place'], providers=['dfa_algorithms.fresh_state', 'pda_algorithms.fresh_symbol'])
     if n < 6:
         raise AnalysisError('fewer than 6 name-introduction sites found for C10')
+    P = ctx.prog.func
+    if pda_rules.check_push_pop_split(ctx, rep, P('pda_algorithms.pda_to_push_pop_in_place')) < 9:
+        raise AnalysisError('push/pop case split not evaluated')
+    pda_rules.check_pda_to_cfg_pipeline(ctx, rep, P('pda_algorithms.pda_to_cfg'))
+    pda_rules.check_empty_stack_form(ctx, rep, P('pda_algorithms.pda_to_accept_on_empty_stack_in_place'))
+    if pda_rules.check_added_transitions_push_pop(ctx, rep, P('pda_algorithms.pda_to_accept_on_empty_stack_in_place')) < 2:
+        raise AnalysisError('transition insertion sites of the empty-stack form vanished')
     _effect_on(ctx, rep, ['pda_algorithms.pda_to_cfg', 'pda_algorithms.pda_to_push_pop', 'pda_algorithms.pda_to_accept_on_empty_stack', 'pda_algorithms.pda_is_push_pop'])
 
 
